@@ -86,7 +86,7 @@ def cases(rng, tier):
 
 
 def judge(case, reals, gens, specs):
-    if case.tags.get("kind") == "after-other-calls":
+    if case.tags.get("kind") in ("after-other-calls", "after-calls-on-another-object"):
         from ..runner import default_judge
         return default_judge(None, case, reals, gens, specs)
     out = []
